@@ -136,7 +136,7 @@ func cmdCheck(args []string) int {
 	}
 	seed, _ := strconv.Atoi(os.Getenv("VERIF_SEED"))
 	if *timeout == 0 {
-		*timeout = 10000
+		*timeout = 6000
 		if *tier == "thorough" {
 			*timeout = 30000
 		}
@@ -157,7 +157,7 @@ func cmdCheck(args []string) int {
 }
 
 func writeLoadFailure(prop string, err error) string {
-	dir := filepath.Join(VerifDir, "replays", prop)
+	dir := filepath.Join(OutDir(), "replays", prop)
 	os.MkdirAll(dir, 0o755)
 	p := filepath.Join(dir, "load-failure.json")
 	b, _ := json.MarshalIndent(map[string]any{"obligation": "load", "error": err.Error()}, "", " ")
@@ -192,7 +192,7 @@ func (w *World) CheckProperty(prop, tier string, timeoutMs int, dump string, ver
 	w.expandStructural()
 	var names []string
 	for n, fc := range w.C.Funcs {
-		if fc.External || !fc.Tags[prop] {
+		if fc.External || fc.IsFnSpec || !fc.Tags[prop] {
 			continue
 		}
 		names = append(names, n)
@@ -278,7 +278,7 @@ func (vc *VC) reposeWithout(o *Obligation, caseExpr string, timeoutMs int) (ok b
 		q = strings.Replace(q, "(check-sat)", b.String()+"(check-sat)", 1)
 	}
 	for _, s := range Solvers {
-		r := runSolver(s, q, timeoutMs)
+		r := runSolver(s, q, timeoutMs/2)
 		if r.status == "unsat" {
 			return true
 		}
@@ -342,7 +342,7 @@ func (r *PropResult) Report() int {
 	for _, ge := range r.GenErrors {
 		fmt.Printf("ERROR: %s\n", ge)
 	}
-	os.RemoveAll(filepath.Join(VerifDir, "replays", prop))
+	os.RemoveAll(filepath.Join(OutDir(), "replays", prop))
 	for _, o := range violations {
 		path := writeReplay(r, o)
 		suffix := ""
@@ -422,9 +422,9 @@ func (r *PropResult) Report() int {
 		"generation_errors":      r.GenErrors,
 	}
 	ev := Evidence{PropertyID: prop, Tier: r.Tier, Seed: r.Seed, Level: "proof", Coverage: cov, Assumptions: assumptions, WallS: r.WallS, Violations: nViol}
-	os.MkdirAll(filepath.Join(VerifDir, "evidence"), 0o755)
+	os.MkdirAll(filepath.Join(OutDir(), "evidence"), 0o755)
 	b, _ := json.MarshalIndent(ev, "", " ")
-	os.WriteFile(filepath.Join(VerifDir, "evidence", prop+".json"), b, 0o644)
+	os.WriteFile(filepath.Join(OutDir(), "evidence", prop+".json"), b, 0o644)
 	fmt.Printf("%s: %d obligations, %d discharged, %d known findings, %d violations, %d covers (%d vacuous), %d functions, %.1fs\n",
 		prop, nOb, nDis, nKnown, nViol, nCover, nVac, len(fl), r.WallS)
 	if len(r.GenErrors) > 0 || nVac > 0 {
@@ -442,7 +442,7 @@ func (r *PropResult) Report() int {
 }
 
 func writeReplay(r *PropResult, o *Obligation) string {
-	dir := filepath.Join(VerifDir, "replays", r.Prop)
+	dir := filepath.Join(OutDir(), "replays", r.Prop)
 	os.MkdirAll(dir, 0o755)
 	p := filepath.Join(dir, sanitizeFile(o.Name)+".json")
 	rep := map[string]any{
